@@ -174,6 +174,18 @@ let run_float_case hd body =
   let il = List.filter (fun l -> String.length l >= 2 && String.sub l 0 2 = "I ") !ilines in
   let obs = List.map (fun l -> match segs_of_iline_z l with _ :: [s; m; e] :: _ -> ((s, m), e) | _ -> ((zi "2", zi "0"), zi "0")) il in
   emit_ms (f_case und ops) (f_spec und ops obs)
+(* equality of weighted graphs with double weights: EQF DW|UW hex n : ops | ops *)
+let run_feq_case hd body =
+  let opsof str = List.filter (fun t -> t <> []) (List.map toks (String.split_on_char ';' str)) in
+  let halves h = let h = (String.make (16 - String.length h) '0') ^ h in (zi (string_of_int (int_of_string ("0x" ^ String.sub h 0 8))), zi (string_of_int (int_of_string ("0x" ^ String.sub h 8 8)))) in
+  let parse t = match t with
+    | ["FA"; i; j; h] -> let (hi, lo) = halves h in fop_add (ni i) (ni j) hi lo
+    | ["FS"; i; j; h] -> let (hi, lo) = halves h in fop_set (ni i) (ni j) hi lo
+    | ["FR"; i; j] -> FRemove (ni i, ni j) | ["FC"] -> FClear | _ -> failwith "bad float op" in
+  let parts = String.split_on_char '|' body in
+  let a, b = (match parts with [a; b] -> List.map parse (opsof a), List.map parse (opsof b) | [a] -> List.map parse (opsof a), [] | _ -> failwith "bad EQF case") in
+  let und = (match hd with [_; "UW"; _; _] -> true | _ -> false) in
+  let m = feq_case und a b in emit_ms m (List.map (fun x -> Some x) m)
 (* Dijkstra with double weights: DJF DW|UW hex n : FA i j <hex> ; ... | source *)
 let run_djf_case hd body =
   let opsof str = List.filter (fun t -> t <> []) (List.map toks (String.split_on_char ';' str)) in
@@ -200,6 +212,7 @@ let run_case line =
     if (match hd with "CONC" :: _ -> true | _ -> false) then run_conc_case hd body else
     if (match hd with "WF" :: _ -> true | _ -> false) then run_float_case hd body else
     if (match hd with "DJF" :: _ -> true | _ -> false) then run_djf_case hd body else
+    if (match hd with "EQF" :: _ -> true | _ -> false) then run_feq_case hd body else
     if (match hd with "PATH" :: _ | "DJ" :: _ -> true | _ -> false) then run_path_case hd body else
     if (match hd with "BIN" :: _ | "BINW" :: _ | "TXT" :: _ | "TXTW" :: _ | "NOFILE" :: _ -> true | _ -> false) then run_io_case hd body else
     let ops = List.filter (fun t -> t <> []) (List.map toks (String.split_on_char ';' body)) in
